@@ -14,6 +14,13 @@ import (
 // OnPacketSent with the bytes in flight including the new packet;
 // OnCongestionEventEx with the bytes in flight before the event, acked and
 // lost packets in ascending packet-number order, at least one of them.
+// PROBE_BW starts its gain cycle at a random offset; the draw is an explicit
+// choice here so that the concretely driven prefixes stay concrete and every
+// offset is explored.
+//
+//verif:model math/rand.Int31n
+func zzModelInt31n(n int32) int32 { return int32(verifChoice("gainCycleOffsetDraw", 7)) % n }
+
 type zzPkt struct {
 	pn   congestion.PacketNumber
 	size congestion.ByteCount
@@ -27,6 +34,8 @@ type zzQuic struct {
 	inflight congestion.ByteCount
 	nextPN   congestion.PacketNumber
 	mds      congestion.ByteCount
+	due      []monotime.Time // when each outstanding packet's acknowledgement arrives (simulator)
+	linkFree monotime.Time   // when the bottleneck is free again (simulator)
 	floor    congestion.PacketNumber // everything below has been pruned from the sampler
 	firstPN  congestion.PacketNumber
 	events   int
@@ -117,43 +126,70 @@ func (q *zzQuic) check(when string) {
 	}
 }
 
-// a loss-free path of fixed capacity, driven concretely: `rounds` round trips
-// of `perRound` full-size packets, acknowledged one RTT after they were sent
-func (q *zzQuic) drive(rounds, perRound int, rtt time.Duration) {
+// A loss-free bottleneck of fixed capacity, simulated concretely: the sender
+// transmits whenever its congestion window allows (ack clocked), packets are
+// serialised at `perRTT` full-size packets per round-trip time and acknowledged
+// one RTT later, one ack event per packet. Runs until `acks` acknowledgements
+// were delivered; with send=false nothing new is sent (an application-limited
+// phase) and the flight drains.
+func (q *zzQuic) simulate(acks int, perRTT int, rtt time.Duration, send bool) {
 	q.rtt.min = rtt
-	for r := 0; r < rounds; r++ {
-		for i := 0; i < perRound; i++ {
-			q.send(q.mds, 0)
-			q.advance(rtt / time.Duration(4*perRound))
+	ser := rtt / time.Duration(perRTT)
+	for n := 0; n < acks; n++ {
+		if send {
+			for q.inflight+q.mds <= q.b.GetCongestionWindow() && len(q.out) < 64 {
+				dep := q.clock.t
+				if q.linkFree > dep {
+					dep = q.linkFree
+				}
+				q.linkFree = dep.Add(ser)
+				q.due = append(q.due, q.linkFree.Add(rtt))
+				q.send(q.mds, 0)
+				q.advance(10 * time.Microsecond)
+			}
 		}
-		q.advance(rtt)
-		for len(q.out) > 0 {
-			q.ackLoss(2, nil)
-			q.advance(rtt / time.Duration(4*perRound))
+		if len(q.out) == 0 {
+			return
 		}
+		if q.due[0] > q.clock.t {
+			q.clock.t = q.due[0]
+		}
+		q.due = q.due[1:]
+		q.ackLoss(1, nil)
 	}
 }
 
 // reachable starting points, produced by driving the real sender concretely
 func (q *zzQuic) prefix(which int) {
+	const perRTT = 8
+	const rtt = 40 * time.Millisecond
 	switch which {
 	case 0: // fresh connection
-	case 1: // in STARTUP, a few round trips in
-		q.drive(2, 4, 40*time.Millisecond)
-	case 2: // past STARTUP (bandwidth stopped growing): DRAIN/PROBE_BW
-		q.drive(6, 4, 40*time.Millisecond)
-	case 3: // past STARTUP, then a loss: in recovery with a handful of packets in flight
-		q.drive(6, 4, 40*time.Millisecond)
-		for i := 0; i < 5; i++ {
-			q.send(q.mds, 0)
-			q.advance(time.Millisecond)
+	case 1: // in STARTUP, two round trips in
+		q.simulate(48, perRTT, rtt, true)
+	case 2: // bandwidth stopped growing: past STARTUP (DRAIN / PROBE_BW)
+		q.simulate(400, perRTT, rtt, true)
+	case 3: // past STARTUP, the application pauses, the flight drains to five packets, then a loss: recovery with few packets in flight
+		q.simulate(400, perRTT, rtt, true)
+		for len(q.out) > 5 {
+			q.simulate(1, perRTT, rtt, false)
 		}
-		q.advance(40 * time.Millisecond)
-		q.ackLoss(2, []bool{true, false})
-	case 4: // idle for longer than the min-RTT expiry: PROBE_RTT on the next round
-		q.drive(6, 4, 40*time.Millisecond)
+		q.due = q.due[3:]
+		q.advance(rtt)
+		q.ackLoss(3, []bool{true, true, false})
+	case 4: // idle for longer than the min-RTT expiry, then traffic again: PROBE_RTT
+		q.simulate(400, perRTT, rtt, true)
+		for len(q.out) > 0 {
+			q.simulate(1, perRTT, rtt, false)
+		}
 		q.advance(11 * time.Second)
-		q.drive(1, 4, 40*time.Millisecond)
+		q.simulate(24, perRTT, rtt, true)
+	case 5: // a loss at full flight: recovery (CONSERVATION, then GROWTH after a round)
+		q.simulate(400, perRTT, rtt, true)
+		q.due = q.due[4:]
+		q.advance(rtt)
+		q.ackLoss(4, []bool{true, false, false, false})
+		q.simulate(12, perRTT, rtt, true)
 	}
 }
 
@@ -170,7 +206,10 @@ func (q *zzQuic) symbolicEvent(i int) {
 		}
 		q.advance(time.Duration(verifInt64("ackDelay", 0, int64(2*time.Second))))
 		k := 1 + verifChoice("packets", 3)
-		lost := []bool{verifChoice("lost0", 2) == 1, verifChoice("lost1", 2) == 1, verifChoice("lost2", 2) == 1}
+		lost := make([]bool, k)
+		for j := range lost {
+			lost[j] = verifChoice("lost", 2) == 1
+		}
 		q.ackLoss(k, lost)
 		verifCover("acked-or-lost")
 	case 2: // MTU discovery raises the datagram size
@@ -185,15 +224,20 @@ func (q *zzQuic) symbolicEvent(i int) {
 }
 
 // From each reachable starting point (fresh; STARTUP; past STARTUP; in
-// recovery with few packets in flight; after a long idle period) and for each
-// profile: any two (quick) / three (thorough) further events with symbolic
-// sizes, delays, packet-number gaps and ack/loss patterns keep the outputs sane
-// and never panic.
+// recovery with few packets in flight; after a long idle period): any further
+// event (quick: one, standard profile; thorough: two, each profile) with
+// symbolic size, delay, packet-number gap and ack/loss pattern keeps the
+// outputs sane and never panics. The starting points are produced by driving
+// the real sender concretely, so every state explored is reachable.
 //
-//verif:harness kind=api fp=abstract mode=int unwind=400 preempt=0 bound=5-concrete-prefixes,3-profiles,symbolic-suffix<=2(quick)/3(thorough)-events,sizes<=mds,delays<=2s,gaps<=2
+//verif:harness kind=api replay=interp fp=abstract mode=int nomodel=bdpFromRttAndBandwidth unwind=400 preempt=0 bound=6-concrete-prefixes,every-gain-cycle-offset,standard(quick)/3-profiles(thorough),symbolic-suffix=1(quick)/2(thorough)-events,sizes<=mds,delays<=2s,gaps<=2
 func ZZ_C12_EventsFromReachableStates() {
-	q := zzNewQuic(zzProfiles[verifChoice("profile", 3)])
-	q.prefix(verifChoice("prefix", 5))
+	prof := ProfileStandard
+	if verifThorough() {
+		prof = zzProfiles[verifChoice("profile", 3)]
+	}
+	q := zzNewQuic(prof)
+	q.prefix(verifChoice("prefix", 6))
 	// which starting points were actually reached (vacuity guard)
 	if q.b.isAtFullBandwidth {
 		verifCover("past-startup")
@@ -207,12 +251,36 @@ func ZZ_C12_EventsFromReachableStates() {
 	if q.b.mode == bbrModeProbeBw {
 		verifCover("probe-bw")
 	}
-	n := 2
+	n := 1
 	if verifThorough() {
-		n = 3
+		n = 2
 	}
 	for i := 0; i < n; i++ {
 		q.symbolicEvent(i)
+	}
+	verifCover("done")
+}
+
+//verif:harness kind=api fp=abstract mode=int nomodel=bdpFromRttAndBandwidth unwind=400 preempt=0 tier=debug
+func ZZ_C12_DebugPrefix() {
+	q := zzNewQuic(ProfileStandard)
+	q.prefix(verifChoice("prefix", 6))
+	verifObserveInt("mode", int64(q.b.mode))
+	verifObserveInt("full", int64(q.b.roundsWithoutBandwidthGain))
+	verifObserveInt("recovery", int64(q.b.recoveryState))
+	verifObserveInt("out", int64(len(q.out)))
+	verifObserveInt("cwnd", int64(q.b.GetCongestionWindow()/q.mds))
+	if q.b.isAtFullBandwidth {
+		verifCover("past-startup")
+	}
+	if q.b.InRecovery() {
+		verifCover("in-recovery")
+	}
+	if q.b.mode == bbrModeProbeRtt {
+		verifCover("probe-rtt")
+	}
+	if q.b.mode == bbrModeProbeBw {
+		verifCover("probe-bw")
 	}
 	verifCover("done")
 }
